@@ -85,6 +85,9 @@ pub fn cmd_c02(tier: &str, out: &str) {
                     emit(&mut ks, &s, ops, &run_push_n(cap, ops, false), new_from_bytes, 20 + cap as u16);
                 }
             }
+            // decoders built on a recycled, non-empty buffer (Decoder::from_buf): stale bytes must never show up in a payload
+            emit(&mut ks, &s, ops, &run_push_from_buf::<Vec<u8>>(ops, false), new_from_bytes, 10);
+            emit(&mut ks, &s, ops, &run_push_from_buf_n(nfix.max(2), ops, false), new_from_bytes, 16);
             emit(&mut ks, &s, ops, &run_stream::<Vec<u8>>(&s, 0), new_from_bytes, 4);
             emit(&mut ks, &s, ops, &run_reader_vec(&s, Src::Iter, 0), new_from_bytes, 7);
             emit(&mut ks, &s, ops, &run_reader_vec(&s, Src::Io, 0), new_from_bytes, 8);
